@@ -57,7 +57,8 @@ func (p *Parser) HasAssocValues() bool {
 			return true
 		}
 	}
-	return false
+	// Typed terminals carry values as well ($N / $name on them read stackEntry.value).
+	return p.TypedTerminals
 }
 
 func (p *Parser) UnionFields() []string {
